@@ -42,7 +42,8 @@ if ok:
     meta["alarms"] = [c for c, r in res.items() if r["exit"] != 0]
     d = f"{V}/benign/{name}"
     os.makedirs(d, exist_ok=True)
-    shutil.copy(f"{src}/patch.diff", d)
+    if os.path.abspath(src) != os.path.abspath(d):
+        shutil.copy(f"{src}/patch.diff", d)
     if os.path.exists(f"{src}/notes.md"):
         meta["notes"] = open(f"{src}/notes.md").read()[:1500]
     json.dump(meta, open(f"{d}/meta.json", "w"), indent=1)
